@@ -860,6 +860,37 @@ theorem step03_enter (env : Env) (K : Option String) (w : World) (g : G03) (op :
           · rw [post_nextNum, hd, hnn, ← hll, hm1]; simp [hm1n]
           · exact hne
 
+/-- What a query reports is the selection, and it validates (every world). -/
+theorem intactChecks_ok (env : Env) (w : World) (op : Op) :
+    firstFail (intactChecks env w.config op (postView env w op)) = none := by
+  unfold intactChecks
+  cases hc : w.config with
+  | none => rfl
+  | some c =>
+    cases hr : reportedNext op (postView env w op) with
+    | none => rfl
+    | some n =>
+      simp only
+      have hop : (op = .nextN ∨ op = .nextP) := by
+        cases op <;> simp [reportedNext] at hr <;> simp
+      have hen : entersWith w.config op = some c := by rcases hop with rfl | rfl <;> simp [entersWith, hc]
+      have hret : (secNextBootPatch env c w.disk).2 = some n := by
+        rcases hop with rfl | rfl
+        · simp only [reportedNext, postView, step, nextBootPatch, hc, World.view] at hr
+          cases hx : (secNextBootPatch env c w.disk).2 with
+          | none => simp [hx] at hr
+          | some k => simp [hx] at hr; rw [hr.2]
+        · simpa [reportedNext, postView, step, nextBootPatch, hc, World.view] using hr
+      have hdisk : (step env w op).1.disk = (secNextBootPatch env c w.disk).1 := by
+        rw [step_disk_enter env w op c hen]; rcases hop with rfl | rfl <;> rfl
+      obtain ⟨m, hm, hmn, hv⟩ := sec_next_facts env c w.disk n hret
+      have hps : (postView env w op).ps = loadPatchesState (step env w op).1.disk := rfl
+      have hshow := showsDisk_view (step env w op).1 (step env w op).2.1 (step env w op).2.2
+      have hval : (postView env w op).valid env c.key m = true := by
+        have : (postView env w op).valid env c.key m = validate env c.key (step env w op).1.disk m := valid_of_shows env _ hshow _
+        rw [this, hdisk]; exact hv
+      simp [firstFail, hps, hdisk, hm, hmn, hval]
+
 /-- **C03.** For every model history that configures one public key, the C03 monitor accepts:
     (a) from the success report of patch `n` on — every record of `n` then matching its artifact —
     the artifact of `n` keeps exactly its bytes through every later call (installs of newer and older
@@ -890,8 +921,9 @@ theorem C03_holds (env : Env) (K : Option String) (libs : List (String × Bytes)
     obtain ⟨h1, h2, h3, h4, h5⟩ := H
     refine ⟨?_, ?_, hK', h2, h3⟩
     · simp only [mon03]
-      rw [firstFail_append]
-      exact ⟨artChecks_ok _ _ _ _ h4, fallChecks_ok _ _ _ _ _ _ _ h5⟩
+      rw [firstFail_append, firstFail_append]
+      refine ⟨⟨artChecks_ok _ _ _ _ h4, fallChecks_ok _ _ _ _ _ _ _ h5⟩, ?_⟩
+      rw [hinv.1]; exact intactChecks_ok env w op
     · simp only [mon03]; rw [h1]; exact (step_config env w op).symm
 
 end Updater
